@@ -211,6 +211,9 @@ def gen_frame(rng, nd, ts, big=False, force=None):
             xz, yz = dec(rng, -4, 4, 2), dec(rng, -3, 3, 2)
         if rng.random() < 0.1:
             xy = "0"
+        if nd == 3 and rng.random() < 0.3:           # only some of the three tilt factors non-zero
+            keep = rng.choice([[0], [1], [2], [0, 1], [0, 2], [1, 2]])
+            xy, xz, yz = [v if n in keep else "0" for n, v in enumerate((xy, xz, yz))]
     n = rng.choice([0, 1, 1, 2, 2, 3, 3, 4, 5, 6, 8, 12]) if not big else rng.randint(20, 60)
     ids = list(range(1, n + 1))
     if rng.random() < 0.8:
